@@ -393,7 +393,8 @@ Lemma C08_print_nonvacuous_proof :
   (forall hr, nvf_print hr 0 = Ok (mkprr (Some (nvf_text ++ [0])) 1 3)) /\     (* no failure: 3 requests *)
   (forall hr, nvf_print hr 1 = Ok (mkprr None 0 1)) /\                         (* initial buffer refused *)
   (forall hr, nvf_print hr 2 = Ok (mkprr None 0 2)) /\                         (* growth in mid-string refused *)
-  (forall hr, nvf_print hr 3 = Ok (mkprr None 0 3)).                           (* final shrink refused *)
+  (forall hr, nvf_print hr 3 = Ok (mkprr None 0 3)) /\                         (* final shrink refused *)
+  (forall hr, nvf_print hr 4 = Ok (mkprr (Some (nvf_text ++ [0])) 1 3)).       (* k beyond the requests made *)
 Proof.
   split; [vm_compute; reflexivity|]. split; [vm_compute; reflexivity|].
   repeat split; intros [|]; vm_compute; reflexivity.
